@@ -33,6 +33,8 @@ pub struct Ev {
   pub name: String,
   /// what the `on_point` callback captured at this event (e.g. the manifest just published)
   pub data: Option<Value>,
+  /// which threads were waiting at a pause point when this event was recorded
+  pub paused: Vec<bool>,
 }
 
 impl Ev {
@@ -126,6 +128,9 @@ struct State {
   /// per thread: what it will do next needs the writer lock / the manifest read lock
   wants_writer: Vec<bool>,
   wants_manifest: Vec<bool>,
+  /// per thread: it is inside `IndexReader::open` between the manifest copy and the last open,
+  /// i.e. it holds the manifest read guard (repaired protocol)
+  holds_read: Vec<bool>,
 }
 
 pub struct Sched {
@@ -169,9 +174,17 @@ impl Sched {
       None => None,
     };
     let mut g = self.st.lock().unwrap();
-    g.trace.push(Ev { thread: tid, kind, name: name.to_string(), data });
+    let paused: Vec<bool> = g.status.iter().map(|s| *s == Status::Paused).collect();
+    g.trace.push(Ev { thread: tid, kind, name: name.to_string(), data, paused });
     if kind == "enter" {
       g.holder = Some(tid);
+    }
+    // manifest read guard: `IndexReader::open` holds it from the copy to the last segment open
+    // (the compaction's own internal reader has released it when `compact.after_segment` is hit)
+    if name == "reader.after_manifest_copy" {
+      g.holds_read[tid] = true;
+    } else if !name.starts_with("reader.") {
+      g.holds_read[tid] = false;
     }
     g.last_point[tid] = name.to_string();
     if kind == "enter" {
@@ -223,7 +236,10 @@ impl Ctx {
     let mut g = self.sched.st.lock().unwrap();
     g.wants_writer[self.tid] = false;
     g.wants_manifest[self.tid] = false;
-    g.trace.push(Ev { thread: self.tid, kind: "free", name: format!("call.end:{k}"), data: None });
+    g.holds_read[self.tid] = false;
+    let paused: Vec<bool> = g.status.iter().map(|s| *s == Status::Paused).collect();
+    g.trace.push(Ev { thread: self.tid, kind: "free", name: format!("call.end:{k}"), data: None, paused });
+    self.sched.cv.notify_all();
   }
 }
 
@@ -271,6 +287,7 @@ pub fn run(root: &Path, mut strategy: Strategy, timing: Timing, pauses: Pauses, 
       last_point: vec![String::new(); n],
       wants_writer: vec![false; n],
       wants_manifest: vec![false; n],
+      holds_read: vec![false; n],
     }),
     cv: Condvar::new(),
     pauses,
@@ -404,10 +421,27 @@ pub fn run(root: &Path, mut strategy: Strategy, timing: Timing, pauses: Pauses, 
 }
 
 /// the lock thread `t` needs next is known to be held by another thread: the writer lock by the
-/// thread inside a section, or the manifest lock by a compaction paused at `compact.after_segment`
+/// thread inside a section; the manifest lock by a compaction paused at `compact.after_segment`
+/// (blocks readers) or by a reader paused inside its open window (blocks the manifest swap of a
+/// commit or compaction)
 fn cause_holds(g: &State, t: usize, n: usize) -> bool {
   let compactor_holds_manifest = (0..n).any(|u| u != t && g.last_point[u] == "compact.after_segment" && g.status[u] != Status::Done);
-  (g.wants_writer[t] && g.holder.is_some() && g.holder != Some(t)) || (g.wants_manifest[t] && compactor_holds_manifest)
+  // a writer parked on `manifest.write()` also blocks new readers (parking_lot is write-preferring)
+  let writer_parked = (0..n).any(|u| u != t && wants_write(g, u) && matches!(g.status[u], Status::Running { blocked: true, .. }));
+  let reader_holds_guard = (0..n).any(|u| u != t && g.holds_read[u] && g.status[u] != Status::Done);
+  (g.wants_writer[t] && g.holder.is_some() && g.holder != Some(t))
+    || (g.wants_manifest[t] && (compactor_holds_manifest || writer_parked))
+    || (wants_write(g, t) && reader_holds_guard)
+}
+
+/// thread `t` is inside a commit/compaction section and has not yet passed the manifest swap: its
+/// next step may need `manifest.write()`
+fn wants_write(g: &State, t: usize) -> bool {
+  g.holder == Some(t)
+    && matches!(
+      g.last_point[t].as_str(),
+      "compact" | "commit" | "reader.after_manifest_copy" | "reader.before_segment_open" | "commit.after_snapshot" | "commit.after_segment" | "commit.after_store" | "commit.after_marker"
+    )
 }
 
 /// `(thread, k)` of the calls in the order of their `enter` events (k-th enter of a thread =
